@@ -251,7 +251,12 @@ def _list_buildoptions(coredata: cdata.CoreData, subprojects: T.Optional[T.List[
 
     def add_keys(opts: T.Union[options.MutableKeyedOptionDictType, options.OptionStore], section: str) -> None:
         for key, opt in sorted(opts.items()):
-            optdict = {'name': str(key), 'value': augmented_values.get(key, opt.value), 'section': section,
+            value = augmented_values.get(key, opt.value)
+            if key not in augmented_values and opt.yielding:
+                # a yielding subproject option takes the value of its parent,
+                # that is what get_option() returns (OptionStore.get_option_and_value_for)
+                value = opt.parent.value
+            optdict = {'name': str(key), 'value': value, 'section': section,
                        'machine': key.machine.get_lower_case_name() if coredata.optstore.is_per_machine_option(key) else 'any'}
             if isinstance(opt, options.UserStringOption):
                 typestr = 'string'
